@@ -114,17 +114,38 @@ package keeper
 // running sums over the first n entries
 //@ ghost func sumTo(m map[int]int, n int) int = n <= 0 ? 0 : sumTo(m, n - 1) + m[n - 1]
 
-// Store-backed accessors: trusted summaries of transient store + big-endian codec (trusted_base).
+// ---- REPRESENTATION (helper tr): the abstract views ARE the content of the module's transient KV store ----------------
+// The transient store of layer l is the KV store kvId(l, evmTransientKey()) of prelude/42_cpc_store.spec. A `representation`
+// DEFINES its ghost variable as a function of that store; it is assumed at the entry of every function (the views have no
+// other meaning), and the accessors below — the only code that touches the store (grep transientKey: keeper.go only) — are
+// VERIFIED against it: their bodies read / write the raw store (`hidden modifies`: the concrete state behind the views,
+// callers reason over the views only), at their exits the views are re-derived from the final store (`rederives`) and the
+// abstract ensures + frame (every OTHER view, every other layer unchanged) are proved. `trusted requires`: the keeper is the
+// wired one (app.go: one NewKeeper call with tkeys[evmtypes.TransientKey]; Keeper is immutable, T4).
+// Layout (x/evm/types/key.go): [5] -> be64(count); [6]++be64(i) -> be64(gas of tx i); [7]++be64(i) -> be64(log count of tx i);
+// [8]++be64(i) -> receipt bytes of tx i; [9] / [10] / [11] -> [1] when the flag is set (absent otherwise).
+// An absent entry reads as 0 (sdk.BigEndianToUint64(nil) == 0). Store invariant (tr_store_wf_*: assumed at entry like the
+// representation, re-established by every writer — ensures C13.tr_store_wf): a present counter entry is 8 bytes long
+// (BigEndianToUint64 panics on 1..7 bytes).
+//@ representation tr_count_rep: forall l int :: {trCount[l]} trCount[l] == (kvHas[kvId(l, evmTransientKey())][b1(5)] ? be64val(bsub(kvVal[kvId(l, evmTransientKey())][b1(5)], 0, 8)) : 0)
+//@ axiom tr_store_wf_count: forall l int :: kvHas[kvId(l, evmTransientKey())][b1(5)] ==> blen(kvVal[kvId(l, evmTransientKey())][b1(5)]) == 8
+
+// Store-backed accessors.
 //@ func (k Keeper) GetRawTxCountTransient(ctx sdk.Context) uint64
-//@   assumed
+//@   deterministic[C01.no_node_local_source]
+//@   trusted requires payload(k.transientKey) == evmTransientKey()
 //@   modifies nothing
-//@   ensures result == trCount[layer(ctx)]
-//@   panics never
+//@   ensures[C13.tr_count_read] result == trCount[layer(ctx)]
+//@   panics[C13.tr_count_read_never_panics] never
 //@ func (k Keeper) IncreaseTxCountTransient(ctx sdk.Context)
-//@   assumed
+//@   deterministic[C01.no_node_local_source]
+//@   trusted requires payload(k.transientKey) == evmTransientKey() && kvLayersDistinct(evmTransientKey()) && be64Codec() && prefixedKeys()
+//@   rederives
 //@   modifies trCount[layer(ctx)]
-//@   ensures trCount[layer(ctx)] == (old(trCount[layer(ctx)]) + 1) % pow2(64)
-//@   panics never
+//@   hidden modifies kvHas[kvId(layer(ctx), payload(k.transientKey))], kvVal[kvId(layer(ctx), payload(k.transientKey))]
+//@   ensures[C13.tr_count_increased] trCount[layer(ctx)] == (old(trCount[layer(ctx)]) + 1) % pow2(64)
+//@   ensures[C13.tr_store_wf] kvHas[kvId(layer(ctx), evmTransientKey())][b1(5)] ==> blen(kvVal[kvId(layer(ctx), evmTransientKey())][b1(5)]) == 8
+//@   panics[C13.tr_count_increase_never_panics] never
 //@ func (k Keeper) GetGasUsedForTdxIndexTransient(ctx sdk.Context, txIdx uint64) uint64
 //@   assumed
 //@   modifies nothing
